@@ -412,6 +412,11 @@ add("C26", "fixed", "filter:raises-TranslationValueError:placeholder", "the tran
     "(a valid name, and one the translate tag handles) was not found and formatting raised TranslationValueError",
     [{"kind": "filter", "filter": "t", "msg": "Hi %(user-name)s", "literal": True, "async": False, "vars": {"user-name": "Ann"}}], "546ab5d")
 
+add("C19", "fixed", "variable-path-not-reported:in-partial", "a partial first reached by a globals-only pass of the analysis (its includer re-entered itself with other arguments before including it) was "
+    "marked as seen; the full pass skipped it and its variables, filters and tags were never reported",
+    [{"kind": "matrix", "main": "{% include 'a' %}", "partials": {"a": "{% if d %}{% assign d = false %}{% include 'a', depth: 1 %}{% endif %}{% include 'b' %}", "b": "{{ q | upcase }}{% echo 1 %}"},
+      "datas": [V.enc({"d": True, "q": "hi"})], "async": False, "async_analysis": False}], "a900d69")
+
 if __name__ == "__main__":
     # further entries are appended by tools/mkfindings.py from triaged replay files and kept in findings_extra.json
     extra_path = os.path.join(VERIF, "tools", "findings_extra.json")
